@@ -98,16 +98,27 @@ REG.add(Contract(f"{PP}._get_unified_modules", module=M_DP, kind="classmethod", 
                  properties=["C06"]))
 REG.macro("by_alias_ok", ["modules", "A"],
           "forall(Str, lambda a: (a in A) == exists(PumlModule, lambda m: (m in modules) and (not is_none(pm_alias(m))) and unwrap(pm_alias(m)) == a))")
+# every alias stands for the name of SOME declaration that carries it
+REG.macro("alias_values_ok", ["modules", "A"],
+          "forall(Str, lambda a: implies(a in A, exists(PumlModule, lambda m: (m in modules) and (not is_none(pm_alias(m))) and unwrap(pm_alias(m)) == a and A[a] == pm_name(m))))")
 REG.add(Contract(f"{PP}._unify", module=M_DP, kind="method", view="string",
                  params=dict(self=PP, modules="Set[PumlModule]", dependencies="Dict[Str,Set[Str]]"), returns="Tuple[Set[Str],Dict[Str,Set[Str]]]",
                  # C06: the dependencies of a component are the union over ALL lines that name it as dependor -- by alias or by name --, every identifier resolved
-                 ensures=["exists(Dict[Str,Str], lambda A: by_alias_ok(modules, A) and "
+                 ensures=["exists(Dict[Str,Str], lambda A: by_alias_ok(modules, A) and alias_values_ok(modules, A) and "
                           "forall(Str, lambda k: (k in result[1]) == exists(Str, lambda d: (d in dependencies) and k == resolved(A, d))) and "
-                          "forall(Str, Str, lambda k, x: implies(k in result[1], (x in result[1][k]) == exists(Str, Str, lambda d, e: (d in dependencies) and resolved(A, d) == k and (e in dependencies[d]) and x == resolved(A, e)))))"],
+                          "forall(Str, Str, lambda k, x: implies(k in result[1], (x in result[1][k]) == exists(Str, Str, lambda d, e: (d in dependencies) and resolved(A, d) == k and (e in dependencies[d]) and x == resolved(A, e)))))",
+                          # components = declared names + dependors + dependees (all resolved)
+                          "forall(Str, lambda x: (x in result[0]) == (exists(PumlModule, lambda m: (m in modules) and x == pm_name(m)) or (x in result[1]) "
+                          "or exists(Str, lambda k: (k in result[1]) and (x in result[1][k]))))"],
                  locals=dict(unified_dependencies="Dict[Str,Set[Str]]", unified_dependees="Set[Str]"),
                  loops={0: dict(sig="for (dependor, dependees) in dependencies.items()", invariant=[
                      "forall(Str, lambda k: (k in unified_dependencies) == exists(Str, lambda d: ((d, dependencies[d]) in seen) and k == resolved(all_aliases, d)))",
                      "forall(Str, Str, lambda k, x: implies(k in unified_dependencies, (x in unified_dependencies[k]) == exists(Str, Str, lambda d, e: ((d, dependencies[d]) in seen) and resolved(all_aliases, d) == k and (e in dependencies[d]) and x == resolved(all_aliases, e))))"])},
+                 # the witness of the existential: the alias map the function computed (each conjunct is an obligation of its own first)
+                 ghost_at={"return (unified_modules, unified_dependencies)": [
+                     "by_alias_ok(modules, all_aliases)", "alias_values_ok(modules, all_aliases)",
+                     "forall(Str, lambda k: (k in unified_dependencies) == exists(Str, lambda d: (d in dependencies) and k == resolved(all_aliases, d)))",
+                     "forall(Str, Str, lambda k, x: implies(k in unified_dependencies, (x in unified_dependencies[k]) == exists(Str, Str, lambda d, e: (d in dependencies) and resolved(all_aliases, d) == k and (e in dependencies[d]) and x == resolved(all_aliases, e))))"]},
                  properties=["C06"]))
 
 # ---------------------------------------------------------------- DependencyToRuleConverter._generate_rule (C07): the rule generated for one component with arrows
@@ -241,10 +252,7 @@ REG.specfuns["applier_of"] = lambda eng, st, r: V(("opaque", "RuleApplier"), _f_
 REG.upcasts[(("obj", "Rule"), ("opaque", "RuleApplier"))] = _f_applier_of
 PATH = vals.opaque_sort("Path")
 # the diagram file: its text as read (open(p).read().strip(), library: assumed) and whether that text has a non-empty part between @startuml and @enduml
-_f_puml_text = z3.Function("puml_text", PATH, S)
-_f_puml_tagged = z3.Function("puml_tagged", S, z3.BoolSort())
-REG.specfuns["puml_text"] = lambda eng, st, p: V(("str",), _f_puml_text(p.x))
-REG.specfuns["puml_tagged"] = lambda eng, st, t: vbool(_f_puml_tagged(t.x))
+# (puml_text / puml_tagged: macros defined with the parser contracts below)
 REG.ctors["PumlParser"] = lambda reg, eng, st, args, kwargs, node: [(st, V(("obj", "PumlParser"), {}))]   # class without __init__, no state
 vals.declare_obj("DiagramRule", dict(_file_path="Opt[Opaque[Path]]", _name_relative_to_root="Opt[Node]", _should_only_rule="Bool"))
 DR = "DiagramRule"
@@ -307,5 +315,85 @@ REG.add(Contract(f"{DR}.assert_applies", module=M_DR, kind="method", view="strin
                      ("RuleEvaluationError", "dr_file_ok(self) and " + _DERR),
                      ("AssertionError", "dr_file_ok(self) and (not " + _DERR + ") and " + _DVIOL)],
                  impl_of="RuleApplier.assert_applies", properties=["C07", "C13"]))
-REG.add(Contract(f"{PP}.parse", module=M_DP, kind="method", view="string", params=dict(self=PP, file_path="Opaque[Path]"), returns=PD, pure=True, status="assumed",
-                 raises=[("PumlParsingError", "not puml_tagged(puml_text(file_path))")]))
+
+# ---------------------------------------------------------------- PumlParser.parse: the structure around the regex tokenisation (C06, C13)
+# Library (assumed): re.compile with flags, re.search, re.finditer, Match.group; open / read (c_parser.py); str.strip (engine model: an uninterpreted function).
+# The regular expressions themselves are opaque here: a compiled pattern is re_compiled(text of the regex, flags); what re.search / re.finditer return for a pattern
+# and a text is an uninterpreted relation (the 'token relation' of DESIGN section 4, C06). What is PROVED is everything the parser does around it.
+PATTERN = vals.opaque_sort("Pattern")
+MATCH = vals.opaque_sort("Match")
+I_ = z3.IntSort()
+_f_re_compiled = z3.Function("re_compiled", S, I_, PATTERN)
+_f_re_search_none = z3.Function("re_search_none", PATTERN, S, z3.BoolSort())
+_f_re_search_val = z3.Function("re_search_val", PATTERN, S, MATCH)
+_f_re_found = z3.Function("re_found", PATTERN, S, MATCH, z3.BoolSort())
+_f_group_i = z3.Function("match_group_i", MATCH, I_, S)
+_f_group_none = z3.Function("match_group_none", MATCH, S, z3.BoolSort())
+_f_group_val = z3.Function("match_group_val", MATCH, S, S)
+REG.module_constants["re.DOTALL"] = V(("int",), z3.IntVal(16))      # the real values of the flags (int(re.DOTALL) == 16, int(re.MULTILINE) == 8)
+REG.module_constants["re.MULTILINE"] = V(("int",), z3.IntVal(8))
+REG.specfuns["re_compiled"] = lambda eng, st, p, f: V(("opaque", "Pattern"), _f_re_compiled(p.x, f.x))
+REG.specfuns["re_search_obj"] = lambda eng, st, p, s: V(("opt", ("opaque", "Match")), (_f_re_search_none(p.x, s.x), V(("opaque", "Match"), _f_re_search_val(p.x, s.x))))
+REG.specfuns["re_found"] = lambda eng, st, p, s, m: vbool(_f_re_found(p.x, s.x, m.x))
+REG.specfuns["match_group_i"] = lambda eng, st, m, i: V(("str",), _f_group_i(m.x, i.x))
+REG.specfuns["match_group"] = lambda eng, st, m, g: V(("opt", ("str",)), (_f_group_none(m.x, g.x), V(("str",), _f_group_val(m.x, g.x))))
+REG.add(Contract("re.compile@flags", qualname="re.compile", status="assumed", params=dict(pattern="Str", flags="Int"), returns="Opaque[Pattern]", defn="re_compiled(pattern, flags)",
+                 note="re.compile(regex, flags): the compiled pattern is a function of the regex text and the flags"))
+REG.contracts["re.compile"].alt = REG.contracts["re.compile@flags"]
+REG.add(Contract("re.search", status="assumed", params=dict(pattern="Opaque[Pattern]", string="Str"), returns="Opt[Opaque[Match]]", defn="re_search_obj(pattern, string)",
+                 note="re.search: None or a match object, a function of pattern and text (uninterpreted)"))
+REG.add(Contract("re.finditer", status="assumed", params=dict(pattern="Opaque[Pattern]", string="Str"), returns="Bag[Opaque[Match]]",
+                 ensures=["forall(Opaque[Match], lambda m: (m in result) == re_found(pattern, string, m))"],
+                 note="re.finditer: the match objects of the pattern in the text, as a collection (the callers only add what they extract to sets / dicts, so the order is irrelevant); "
+                      "WHICH matches there are is the uninterpreted token relation re_found"))
+REG.method_family["Match"] = "Match"
+REG.add(Contract("Match.group", status="assumed", kind="method", params=dict(self="Opaque[Match]", group="Str"), returns="Opt[Str]", defn="match_group(self, group)",
+                 note="m.group(name): the text captured by the named group, None when the group did not take part in the match"))
+REG.add(Contract("Match.group@int", qualname="Match.group", status="assumed", kind="method", params=dict(self="Opaque[Match]", group="Int"), returns="Str", defn="match_group_i(self, group)",
+                 note="m.group(i) for a group that takes part in EVERY match of its pattern (the only use: group 1 of '.*@startuml(.+)@enduml.*', which is not optional): a str"))
+REG.contracts["Match.group"].alt = REG.contracts["Match.group@int"]
+
+# the three regular expressions as the source builds them (evaluated from the module constants on every run; a changed constant changes these terms)
+TAG_REGEX = r"'.*' + '@startuml' + '(' + '.+' + ')' + '@enduml' + '.*'"
+REG.macro("tag_pattern", [], f"re_compiled({TAG_REGEX}, 16)")
+# text has a (non-empty) diagram between the tags  /  that diagram text
+REG.macro("puml_has_tags", ["text"], "not is_none(re_search_obj(tag_pattern(), text))")
+REG.macro("puml_inner", ["text"], "match_group_i(unwrap(re_search_obj(tag_pattern(), text)), 1)")
+REG.add(Contract(f"{PP}._named_group", module=M_DP, kind="classmethod", view="string", params=dict(name="Str", content="Str"), returns="Str",
+                 defn="'(?P<' + name + '>' + content + ')'", properties=["C06"]))
+REG.add(Contract(f"{PP}._component_optional_brackets", module=M_DP, kind="classmethod", view="string", params=dict(group_name="Str"), returns="Str",
+                 # an optional '[' , the named group over [\\w\\d.]+ , an optional ']'
+                 defn=r"'(\\[)?' + '(?P<' + group_name + '>' + '(\\w|\\d|\\.)+' + ')' + '(\\])?'", properties=["C06"]))
+REG.add(Contract(f"{PP}._remove_content_outside_start_and_end_tags", module=M_DP, kind="classmethod", view="string", params=dict(content="Str"), returns="Str",
+                 # C06 / C13: a text without '@startuml <something> @enduml' is rejected with a parsing error; otherwise exactly the text between the tags (group 1) is kept
+                 raises=[("PumlParsingError", "not puml_has_tags(content)")], ensures=["result == puml_inner(content)"],
+                 properties=["C06", "C13"]))
+# the two tokenising loops: bounded (native stand-in native/diagrams.py bounded_puml); their results enter parse as two uninterpreted functions of the diagram text
+_f_decl = z3.Function("puml_decl_tokens", S, z3.ArraySort(PM["sort"], z3.BoolSort()))
+_f_dep_dom = z3.Function("puml_dep_dom", S, z3.ArraySort(S, z3.BoolSort()))
+_f_dep_val = z3.Function("puml_dep_val", S, z3.ArraySort(S, z3.ArraySort(S, z3.BoolSort())))
+REG.specfuns["puml_decl_tokens"] = lambda eng, st, t: V(("set", ("data", "PumlModule")), _f_decl(t.x))
+REG.specfuns["puml_dep_tokens"] = lambda eng, st, t: V(("dict", ("str",), ("set", ("str",))), (_f_dep_dom(t.x), _f_dep_val(t.x)))
+REG.add(Contract(f"{PP}._retrieve_modules_declared_outside_dependencies", module=M_DP, kind="classmethod", view="string", status="bounded", params=dict(content="Str"),
+                 returns="Set[PumlModule]", defn="puml_decl_tokens(content)",
+                 note="BOUNDED (re.finditer over the whole text with capture groups): the declared (name, alias) pairs are a function of the diagram text; which pairs -- native stand-in C06.puml-parse-vs-generated-relation"))
+REG.add(Contract(f"{PP}._retrieve_dependencies_and_inline_modules", module=M_DP, kind="classmethod", view="string", status="bounded", params=dict(content="Str"),
+                 returns="Dict[Str,Set[Str]]", defn="puml_dep_tokens(content)",
+                 note="BOUNDED (re.finditer over the whole text with capture groups): the drawn dependor -> dependees map as written (aliases unresolved) is a function of the diagram text"))
+REG.macro("puml_text", ["p"], "str_strip(file_read(file_of(p)))")
+REG.specfuns["str_strip"] = lambda eng, st, s: V(("str",), z3.Function("str_strip", S, S)(s.x))
+REG.macro("puml_tagged", ["t"], "puml_has_tags(t)")
+REG.macro("parse_ok", ["pd", "modules", "dependencies"],
+          "exists(Dict[Str,Str], lambda A: by_alias_ok(modules, A) and alias_values_ok(modules, A) and "
+          "forall(Str, lambda k: (k in pd.dependencies) == exists(Str, lambda d: (d in dependencies) and k == resolved(A, d))) and "
+          "forall(Str, Str, lambda k, x: implies(k in pd.dependencies, (x in pd.dependencies[k]) == exists(Str, Str, lambda d, e: (d in dependencies) and resolved(A, d) == k and (e in dependencies[d]) and x == resolved(A, e))))) and "
+          "forall(Str, lambda x: (x in pd.all_modules) == (exists(PumlModule, lambda m: (m in modules) and x == pm_name(m)) or (x in pd.dependencies) "
+          "or exists(Str, lambda k: (k in pd.dependencies) and (x in pd.dependencies[k]))))")
+REG.add(Contract(f"{PP}.parse", module=M_DP, kind="method", view="string", params=dict(self=PP, file_path="Opaque[Path]"), returns=PD, pure=True,
+                 # C13: a file without the tags is rejected, never parsed to an empty diagram
+                 raises=[("PumlParsingError", "not puml_has_tags(puml_text(file_path))")],
+                 # C06: components and dependencies are exactly those of the tokens found BETWEEN the tags, aliases resolved, lines merged
+                 ensures=["parse_ok(result, puml_decl_tokens(puml_inner(puml_text(file_path))), puml_dep_tokens(puml_inner(puml_text(file_path))))"],
+                 locals=dict(content="Str", relevant_content="Str", modules="Set[PumlModule]", dependencies="Dict[Str,Set[Str]]"),
+                 note="pure: within one interpreter run the result is a function of the file (with two declarations of ONE alias for different names the choice depends on the hash seed: reported)",
+                 properties=["C06", "C13", "C07"]))
